@@ -879,3 +879,18 @@ Proof.
   - pose proof (fun x => adj_bounds (Z.of_nat len) 0 (Z.of_nat len) x Hl (or_introl (conj eq_refl eq_refl))) as B.
     destruct a as [a0|], b as [b0|]; try pose proof (B a0); try pose proof (B b0); lia.
 Qed.
+
+(* ------------------------------------------------------------------ the two recorded findings, as the code does them today *)
+(* append onto ConformerEnsemble() (shape (0, 0, 3)): the geometry's coordinate block is adopted as it is *)
+Definition append_atomless_as_coded (c : list row3) (q : list num) (e : ens) : ens := mkEns (na e) [c] [q] [n 1].
+
+Lemma atomless_append_breaks c q e : atomless_empty e = true -> c <> [] -> ~ Rect (append_atomless_as_coded c q e).
+Proof.
+  unfold atomless_empty. intros H Hc (_ & _ & H3 & _). apply andb_true_iff in H as [H _]. apply Nat.eqb_eq in H.
+  simpl in H3. inversion H3 as [|? ? L _]; subst. rewrite H in L. destruct c; [congruence|discriminate].
+Qed.
+
+(* ConformerEnsemble(molecule, n_conformers=0): `n_conformers or 1` *)
+Definition ctor_mol_zero_as_coded (a : nat) : ens := alloc (if 0 =? 0 then 1 else 0) a.
+Lemma ctor_mol_zero_yields_one a : Rect (ctor_mol_zero_as_coded a) /\ nc (ctor_mol_zero_as_coded a) = 1.
+Proof. split; [apply Rect_alloc|reflexivity]. Qed.
